@@ -67,6 +67,9 @@ func callNMF(name string, dataKind int, v *big.Int, masks []int64, maskKind int)
 	case 7: // uint16
 		d := uint16(v.Uint64())
 		do(func() (*of.MatchField, error) { return nmfMask(name, d, masks, maskKind) })
+	case 8: // a nil *big.Int: not a number at all
+		var d *big.Int
+		do(func() (*of.MatchField, error) { return nmfMask(name, d, masks, maskKind) })
 	}
 	if err != nil || f == nil {
 		res.outcome = 1
@@ -166,6 +169,9 @@ func runC17(seed uint64, tier, dir, replay string) error {
 		sign := 0
 		if eff.Sign() < 0 {
 			sign = 1
+		}
+		if dataKind == 8 {
+			sign = 2
 		}
 		mag := new(big.Int).Abs(eff).Bytes()
 		mints := make([]uint64, len(effMasks))
@@ -291,7 +297,7 @@ func runC17(seed uint64, tier, dir, replay string) error {
 			v1 := randVal(1 + rng.Intn(bits-s))
 			emit("window1", nm, dataKindFor(v1), v1, []int64{int64(s)}, rng.Intn(4), -1)
 			// (c) what cannot be represented
-			switch rng.Intn(7) {
+			switch rng.Intn(8) {
 			case 0: // value wider than the window
 				wide := new(big.Int).Lsh(big.NewInt(1), uint(w))
 				wide.Add(wide, randVal(w))
@@ -306,6 +312,8 @@ func runC17(seed uint64, tier, dir, replay string) error {
 				neg.Sub(neg, big.NewInt(1))
 				ms := [][]int64{nil, {int64(s)}, {int64(s), int64(w)}}[rng.Intn(3)]
 				emit("bad-negative", nm, []int{1, 3, 4}[rng.Intn(3)], neg, ms, 0, -1)
+			case 7: // nil *big.Int
+				emit("bad-nil", nm, 8, new(big.Int), [][]int64{nil, {int64(s)}, {int64(s), int64(w)}}[rng.Intn(3)], 0, -1)
 			case 4: // negative window arguments
 				emit("bad-negative-window", nm, dataKindFor(v), v, [][]int64{{-1, int64(w)}, {int64(s), -1}, {-1}}[rng.Intn(3)], []int{0, 2}[rng.Intn(2)], -1)
 			case 5: // too many arguments
@@ -327,6 +335,6 @@ func runC17(seed uint64, tier, dir, replay string) error {
 	if len(direct) > 0 {
 		o.Meta["direct_violations"] = direct
 	}
-	o.Meta["rule"] = "NXM_NX_REG0..15: the 528 windows (all of them per register in the thorough tier, a rotating quarter in the quick tier) with boundary/random values spanning the window, compared with NewRegMatchField's bytes; every registered field: exact form, 1/2/3-argument forms at random windows inside the field (48/64/128-bit and longer fields sampled), in-place form; unrepresentable inputs (value wider than window / field, window beyond field, negative data of every signed type and *big.Int, negative window, >3 arguments, in-place data outside its mask); data passed as uint16/uint32/int32/uint64/int64/*big.Int/[]byte/net.HardwareAddr, mask arguments as int/uint16/int64/uint32; *big.Int and byte-slice arguments compared before/after; distinct by field x form x data type x outcome"
+	o.Meta["rule"] = "NXM_NX_REG0..15: the 528 windows (all of them per register in the thorough tier, a rotating quarter in the quick tier) with boundary/random values spanning the window, compared with NewRegMatchField's bytes; every registered field: exact form, 1/2/3-argument forms at random windows inside the field (48/64/128-bit and longer fields sampled), in-place form; unrepresentable inputs (value wider than window / field, window beyond field, negative data of every signed type and *big.Int, a nil *big.Int, negative window, >3 arguments, in-place data outside its mask); data passed as uint16/uint32/int32/uint64/int64/*big.Int/[]byte/net.HardwareAddr, mask arguments as int/uint16/int64/uint32; *big.Int and byte-slice arguments compared before/after; distinct by field x form x data type x outcome"
 	return o.Close()
 }
